@@ -31,7 +31,7 @@ def main():
             print("skip (not confirmed):", name)
             continue
         prop = name[:3]
-        n = int(name[4:])
+        n = int(name.rsplit("m", 1)[1])
         src = os.path.dirname(d["patch"])
         out = os.path.join(V, "seeded", name)
         os.makedirs(out, exist_ok=True)
